@@ -2,10 +2,11 @@
 """Imports the two seeded changes an independent sub-agent left in <worktree>/_seed, after confirming
 them here: each patch applies alone to a fresh scratch worktree of /repo's HEAD, the unedited suite
 gives the baseline result (296 pass, the same 3 fail), the demonstration fails with the change and
-passes without it.  usage: tools/seedimport.py <PROPERTY_ID> <worktree>"""
+passes without it.  usage: tools/seedimport.py <PROPERTY_ID> <worktree> [target letters, default AB]"""
 import json, os, shutil, subprocess, sys
 HERE = os.path.dirname(os.path.dirname(os.path.abspath(__file__)))
 pid, wt = sys.argv[1], sys.argv[2]
+TARGET = sys.argv[3] if len(sys.argv) > 3 else 'AB'
 BASE_FAIL = {'tests/test_compile.py::test_compile', 'tests/test_multistructures.py::test_multigeopoint_from_shapely',
              'tests/test_structures.py::test_geoellipse_from_covariance_matrix'}
 
@@ -28,12 +29,12 @@ def demo(tree, path):
     return rc, out[-400:]
 
 
-for letter in 'AB':
+for letter, tletter in zip('AB', TARGET):
     src = os.path.join(wt, '_seed')
     patch = os.path.join(src, f'{letter}.diff')
     if not os.path.exists(patch):
         print(f'{pid}-{letter}: no patch'); continue
-    scratch = f'/tmp/seedimp-{pid}-{letter}'
+    scratch = f'/tmp/seedimp-{pid}-{tletter}'
     shutil.rmtree(scratch, ignore_errors=True)
     subprocess.run(['git', '-C', '/repo', 'worktree', 'add', '-q', '--detach', scratch, 'HEAD'], check=True)
     try:
@@ -46,7 +47,7 @@ for letter in 'AB':
         ok = failed == BASE_FAIL and ' 296 passed' in (' ' + tail) and d_clean[0] == 0 and d_mut[0] != 0
         print(f'{pid}-{letter}: suite [{tail.strip()}] same-3-fail={failed == BASE_FAIL} demo clean rc={d_clean[0]} mutated rc={d_mut[0]} -> {"KEEP" if ok else "REJECT"}')
         if ok:
-            dst = os.path.join(HERE, 'seeded', f'{pid}-{letter}')
+            dst = os.path.join(HERE, 'seeded', f'{pid}-{tletter}')
             os.makedirs(dst, exist_ok=True)
             shutil.copy(patch, os.path.join(dst, 'patch.diff'))
             shutil.copy(os.path.join(src, f'demo_{letter}.py'), os.path.join(dst, 'demo.py'))
